@@ -349,6 +349,8 @@ def gen_history(rng, regs, n, scopes, depth=0, w=None, next_obj=None):
                     'val': rng.randint(1, 9), '_form': 'macro_text', 'block': False})
     elif r < 0.42:
       ops.append({'op': 'finalize'})
+      if rng.random() < 0.4:   # finalize called while some config scope is active: that changes nothing
+        ops[-1]['_enter'] = gen_enter(rng, rng.choice(scopes))
     elif r < 0.56 and depth < 2:
       body = gen_history(rng, regs, rng.randint(0, 4), scopes, depth + 1, w, next_obj)
       ops.append({'op': 'unlock', 'body': body, 'raises': rng.random() < 0.5, '_base': rng.random() < 0.4})
